@@ -534,3 +534,57 @@ intros n Hn. repeat split; try reflexivity.
 - apply double_of_ordinal_exact. split; [apply Hn|]. apply Z.lt_trans with (2 ^ 24); [apply Hn|reflexivity].
 - now apply float_of_ordinal_exact.
 Qed.
+
+(* ------------------------------------------------------------------ *)
+(* the two threshold doubles are adjacent: no binary64 lies strictly between them *)
+
+Lemma pred_thr_hi_bits :
+  bits_of_b64 (Binary.Bpred 53 1024 Hprec64 Hmax64 thr_hi) = bits_of_b64 thr_lo.
+Proof. vm_compute. reflexivity. Qed.
+
+Lemma pred_thr_hi : Binary.Bpred 53 1024 Hprec64 Hmax64 thr_hi = thr_lo.
+Proof.
+rewrite <- (binary_float_of_bits_of_binary_float 52 11 eq_refl eq_refl eq_refl (Binary.Bpred 53 1024 Hprec64 Hmax64 thr_hi)).
+rewrite <- (binary_float_of_bits_of_binary_float 52 11 eq_refl eq_refl eq_refl thr_lo).
+apply f_equal. exact pred_thr_hi_bits.
+Qed.
+
+Local Instance P53 : Prec_gt_0 53 := Hprec64.
+Local Instance V64 : Valid_exp fexp64 := FLT_exp_valid (-1074) 53.
+
+Lemma B2R_thr_lo_is_pred : Binary.B2R 53 1024 thr_lo = pred radix2 fexp64 (Binary.B2R 53 1024 thr_hi).
+Proof.
+rewrite <- pred_thr_hi.
+generalize (Binary.Bpred_correct 53 1024 Hprec64 Hmax64 thr_hi thr_hi_finite).
+change (SpecFloat.fexp 53 1024) with fexp64.
+rewrite Rlt_bool_true; [tauto|].
+apply Rlt_le_trans with 0%R.
+- rewrite <- Ropp_0. apply Ropp_lt_contravar, bpow_gt_0.
+- apply (@pred_ge_0 radix2 fexp64 V64).
+  + apply thr_hi_pos.
+  + apply (Binary.generic_format_B2R 53 1024 thr_hi).
+Qed.
+
+(* no binary64 lies strictly between thr_lo and thr_hi *)
+Lemma below_thr_hi_le_thr_lo : forall x : binary64,
+  (Rabs (Binary.B2R 53 1024 x) < Binary.B2R 53 1024 thr_hi)%R ->
+  (Rabs (Binary.B2R 53 1024 x) <= Binary.B2R 53 1024 thr_lo)%R.
+Proof.
+intros x H. rewrite B2R_thr_lo_is_pred.
+apply (@pred_ge_gt radix2 fexp64 V64); auto.
+- apply generic_format_abs. apply (Binary.generic_format_B2R 53 1024 x).
+- apply (Binary.generic_format_B2R 53 1024 thr_hi).
+Qed.
+
+(* the overflow threshold, as an iff *)
+Lemma narrow_overflow_iff : forall x : binary64,
+  Binary.is_finite 53 1024 x = true ->
+  (Binary.is_finite 24 128 (narrow x) = false <->
+   (Binary.B2R 53 1024 thr_hi <= Rabs (Binary.B2R 53 1024 x))%R).
+Proof.
+intros x Hf. split.
+- intros Hinf. destruct (Rle_or_lt (Binary.B2R 53 1024 thr_hi) (Rabs (Binary.B2R 53 1024 x))) as [H|H]; auto.
+  exfalso. apply below_thr_hi_le_thr_lo in H.
+  destruct (narrow_no_overflow x Hf H) as [F _]. congruence.
+- intros H. rewrite (narrow_overflow x Hf H). reflexivity.
+Qed.
